@@ -802,4 +802,29 @@ theorem bipartite_core (d : Char) (cm rd : Option Char) (nty ety : Ty) (dual : B
   unfold readBipartite writeBipartite parseBipartiteLines
   rw [genBipartite_eq, htok, mapRes_bipartiteLine nty ety dual (incOf edges) hc]; rfl
 
+/-! ### definitional facts (kept as lemmas, not counted as property theorems) -/
+
+/-- colliding string forms (e.g. node IDs `2` and `"2"`) are refused by the writer with the library's error -/
+theorem json_write_collision (h : TNet)
+    (hc : ¬ (h.nodes.map renderAtom).Nodup ∨ ¬ (h.edges.map (fun e => renderAtom e.1)).Nodup) :
+    jsonWrite h = .err .lib := by
+  unfold jsonWrite
+  by_cases h1 : (dedup (h.nodes.map renderAtom)).length = h.nodes.length
+  · have hn : (h.nodes.map renderAtom).Nodup := nodup_of_length_dedup (by simpa using h1)
+    have h2 : (dedup (h.edges.map (fun e => renderAtom e.1))).length ≠ h.edges.length := by
+      intro h2
+      have : (h.edges.map (fun e => renderAtom e.1)).Nodup := nodup_of_length_dedup (by simpa using h2)
+      rcases hc with hc | hc <;> contradiction
+    simp [h1, h2]
+  · simp [h1]
+
+/-- HIF stores IDs as JSON *values*: int and str IDs come back unchanged with no `nodetype`/`edgetype` at all -/
+theorem hif_ids_need_no_cast (a : Atom) : idOfJVal .none (idToJVal a) = .ok a := by
+  cases a <;> rfl
+
+/-- … and an explicit cast that matches the ID's type is harmless -/
+theorem hif_ids_cast (i : Int) (s : String) :
+    idOfJVal .int (idToJVal (.int i)) = .ok (.int i) ∧ idOfJVal .str (idToJVal (.str s)) = .ok (.str s) :=
+  ⟨rfl, rfl⟩
+
 end Xgi.C11
